@@ -16,12 +16,17 @@ type Cfg struct {
 	StartRW int   `json:"startrw"`
 	Seg     int64 `json:"seg"`
 	Sync    bool  `json:"sync"`
+	Node    int64 `json:"node,omitempty"` // Options.NodeNum (0 => 1)
 }
 
 func (c Cfg) Options(dir string) nutsdb.Options {
+	node := c.Node
+	if node == 0 {
+		node = 1
+	}
 	return nutsdb.Options{
 		Dir: dir, EntryIdxMode: nutsdb.EntryIdxMode(c.Mode), RWMode: nutsdb.RWMode(c.RW),
-		StartFileLoadingMode: nutsdb.RWMode(c.StartRW), SegmentSize: c.Seg, NodeNum: 1, SyncEnable: c.Sync,
+		StartFileLoadingMode: nutsdb.RWMode(c.StartRW), SegmentSize: c.Seg, NodeNum: node, SyncEnable: c.Sync,
 	}
 }
 
